@@ -40,6 +40,19 @@ def gen(rng, tier):
         extras.append({"kind": "optimize", "var": rng.choice(group)})
     if rng.random() < 0.2:
         extras.append({"kind": "pickle", "var": rng.choice(group)})
+    # resubmission: a member that has been submitted once (output keys / records / dask keys read),
+    # is then modified in place, and is submitted again with the group
+    resubmit = None
+    if rng.random() < 0.3:
+        from . import c11
+
+        cands = [v for v in group if c11.assignable(ctx.env.vars[v])]
+        if cands:
+            v = rng.choice(cands)
+            ev_ = c11.gen_inplace_event(rng, recipe, v, ctx.env.vars[v], ID)
+            if ev_ is not None:
+                resubmit = {"var": v, "warm": rng.sample(["frisky_keys", "frisky_graph", "frisky_chunks", "dask_keys", "compute"],
+                                                        rng.randint(1, 3)), "event": ev_}
     group_size = len(group) + len(extras)
     while group_size > 4:
         if extras:
@@ -47,7 +60,7 @@ def gen(rng, tier):
         else:
             group.pop()
         group_size -= 1
-    return {"recipe": recipe, "group": group, "extras": extras, "foreign_seen": rng.random() < 0.3,
+    return {"recipe": recipe, "group": group, "extras": extras, "resubmit": resubmit, "foreign_seen": rng.random() < 0.3,
             "optimize_graph": rng.random() < 0.85, "exec_seeds": [rng.getrandbits(32) for _ in range(2 if tier == "quick" else 4)],
             "max_perms": 24}
 
@@ -152,6 +165,32 @@ def execute(case, stats, log):
         raise
     except Exception as e:  # noqa: BLE001
         raise Invalid(f"group build failed: {type(e).__name__}: {str(e)[:200]}")
+    rs = case.get("resubmit")
+    if rs and rs["var"] in case["group"]:
+        x = m.pool[rs["var"]]
+        try:
+            with warnings.catch_warnings():
+                warnings.simplefilter("ignore")
+                for w in rs["warm"]:  # the first submission
+                    try:
+                        if w == "frisky_keys":
+                            x.__frisky_output_keys__()
+                        elif w == "frisky_graph":
+                            x.__frisky_graph__(set())
+                        elif w == "frisky_chunks":
+                            x.__frisky_records_chunks__(set())
+                        elif w == "dask_keys":
+                            x.__dask_keys__()
+                        else:
+                            m.compute(x, {"policy": "fifo"})
+                    except NotImplementedError:
+                        pass
+                m.apply(rs["event"])
+        except Violation:
+            raise
+        except Exception as e:  # noqa: BLE001
+            raise Invalid(f"in-place step rejected: {type(e).__name__}: {str(e)[:200]}")
+        stats["fault.inplace_between_submissions"] = 1
     og = case.get("optimize_graph", True)
     # reference block values from the dask graph, one collection at a time
     ref = {}
@@ -250,11 +289,31 @@ def execute(case, stats, log):
                                     raise Violation(ID, "records-value-differs",
                                                     f"{proto} walk {order_names}: block {k} of {name} differs from the dask "
                                                     f"graph's value: {r}")
+                            # the OUTPUT keys are how the consumer finds the results: the i-th output key holds the
+                            # i-th block of the collection (flattened __dask_keys__ order, duplicates dropped)
+                            outs = list(x.__frisky_output_keys__())
+                            dk = list(ref[name])
+                            if len(outs) != len(dk):
+                                raise Violation(ID, "output-keys-wrong",
+                                                f"{proto} walk {order_names}: {name} advertises {len(outs)} output keys for "
+                                                f"{len(dk)} blocks")
+                            for ko, kd in zip(outs, dk):
+                                r = same_value(values[ko], ref[name][kd])
+                                if r:
+                                    raise Violation(ID, "output-keys-wrong",
+                                                    f"{proto} walk {order_names}: output key {ko} of {name} holds another value "
+                                                    f"than block {kd} of the dask graph: {r}")
                 log.append([proto, order_names, len(records), dup])
     stats["probe.groups_gt1"] = 1 if len(members) > 1 else 0
 
 
 def candidates(case):
+    if case.get("resubmit"):
+        yield dict(case, resubmit=None)
+        if len(case["resubmit"]["warm"]) > 1:
+            for i in range(len(case["resubmit"]["warm"])):
+                w = case["resubmit"]["warm"]
+                yield dict(case, resubmit=dict(case["resubmit"], warm=w[:i] + w[i + 1:]))
     if case["extras"]:
         for i in range(len(case["extras"])):
             yield dict(case, extras=case["extras"][:i] + case["extras"][i + 1:])
@@ -278,4 +337,7 @@ def candidates(case):
             continue
         ex = [e for e in case["extras"] if (repl if e["var"] == victim else e["var"]) in grp]
         ex = [dict(e, var=(repl if e["var"] == victim else e["var"])) for e in ex]
-        yield dict(case, recipe=new, group=grp, extras=ex)
+        rs = case.get("resubmit")
+        if rs and (rs["var"] not in grp or rs["var"] == victim or rs["var"] in dead):
+            rs = None
+        yield dict(case, recipe=new, group=grp, extras=ex, resubmit=rs)
